@@ -49,7 +49,19 @@ class IrGenerator:
             )
 
             # concurrent block for always assignments
-            concurrent = ir.Concurrent("always", always_converter.code(), {}, None)
+            concurrent = ir.Concurrent(
+                "always", always_converter.code(), {}, inp.source_location()
+            )
+
+            def reject_variables(obj, access: AccessFlags):
+                # the always expression is emitted outside the process
+                # that declares the variables of this context
+                assert not isinstance(
+                    obj, Variable
+                ), "variables cannot be used in always expressions"
+                return obj
+
+            concurrent.visit_referenced_objects(reject_variables)
 
             temp_replacement = IdMap()
 
